@@ -11,260 +11,31 @@ import (
 	_ "crypto/sha512"
 	"fmt"
 	"net/url"
+	"os"
+	"sort"
+	"strconv"
 	"strings"
 
+	"github.com/opencontainers/go-digest"
 	"oras.land/oras-go/v2/registry"
 	"oras.land/oras-go/v2/registry/remote"
 	"verifharness/common"
 )
 
-var run *common.Run
-
-func hexDigest(alg string, n int, fill byte) string {
-	return alg + ":" + strings.Repeat(string(fill), n)
-}
-
-var digestPool = []string{
-	hexDigest("sha256", 64, 'a'),
-	hexDigest("sha256", 64, '0'),
-	hexDigest("sha384", 96, 'b'),
-	hexDigest("sha512", 128, 'c'),
-	hexDigest("sha256", 63, 'a'),  // short
-	hexDigest("sha256", 65, 'a'),  // long
-	hexDigest("sha256", 64, 'A'),  // upper-case hex
-	hexDigest("sha256", 64, 'g'),  // not hex
-	hexDigest("sha1", 40, 'a'),    // unregistered
-	hexDigest("md5", 32, 'a'),     // unregistered
-	hexDigest("sha512", 64, 'a'),  // wrong length for algorithm
-	hexDigest("SHA256", 64, 'a'),  // upper-case algorithm
-	"sha256:",                     // empty encoded
-	":" + strings.Repeat("a", 64), // empty algorithm
-	hexDigest("sha256+b64", 64, 'a'),
-	"sha256:" + strings.Repeat("a", 32) + ":" + strings.Repeat("a", 31),
-}
-
 // ---------- independent grammar recogniser (the oracle) ----------
-
-func isLowerAlnum(c byte) bool { return c >= 'a' && c <= 'z' || c >= '0' && c <= '9' }
-func isWord(c byte) bool {
-	return isLowerAlnum(c) || c >= 'A' && c <= 'Z' || c == '_'
-}
-
-// path component: alnum+ ( sep alnum+ )*, sep = '.' | '_' | '__' | '-'+
-func okComponent(s string) bool {
-	i, n := 0, len(s)
-	eat := func() bool {
-		j := i
-		for i < n && isLowerAlnum(s[i]) {
-			i++
-		}
-		return i > j
-	}
-	if !eat() {
-		return false
-	}
-	for i < n {
-		switch {
-		case s[i] == '.':
-			i++
-		case s[i] == '_':
-			i++
-			if i < n && s[i] == '_' {
-				i++
-			}
-		case s[i] == '-':
-			for i < n && s[i] == '-' {
-				i++
-			}
-		default:
-			return false
-		}
-		if !eat() {
-			return false
-		}
-	}
-	return true
-}
-
-func okRepository(s string) bool {
-	for _, c := range strings.Split(s, "/") {
-		if !okComponent(c) {
-			return false
-		}
-	}
-	return true
-}
-
-func okTag(s string) bool {
-	if len(s) < 1 || len(s) > 128 || !isWord(s[0]) {
-		return false
-	}
-	for i := 1; i < len(s); i++ {
-		if !isWord(s[i]) && s[i] != '.' && s[i] != '-' {
-			return false
-		}
-	}
-	return true
-}
-
-func okDigest(s string) bool {
-	i := strings.IndexByte(s, ':')
-	if i < 0 {
-		return false
-	}
-	want := map[string]int{"sha256": 64, "sha384": 96, "sha512": 128}[s[:i]]
-	enc := s[i+1:]
-	if want == 0 || len(enc) != want {
-		return false
-	}
-	for j := 0; j < len(enc); j++ {
-		if !(enc[j] >= '0' && enc[j] <= '9' || enc[j] >= 'a' && enc[j] <= 'f') {
-			return false
-		}
-	}
-	return true
-}
-
-// registryVerdict: 1 accept, 0 reject, -1 not judged (left to net/url).
-func registryVerdict(reg string) int {
-	if reg == "" || strings.ContainsRune(reg, '@') {
-		return 0
-	}
-	// '?' ends a URL authority (the rest would be a query), space, control characters and DEL
-	// are refused by net/url: never a valid registry
-	for i := 0; i < len(reg); i++ {
-		if c := reg[i]; c == '?' || c <= ' ' || c == 0x7f {
-			return 0
-		}
-	}
-	safe := func(s string) bool {
-		for i := 0; i < len(s); i++ {
-			c := s[i]
-			if !(isWord(c) || c == '-' || c == '.') {
-				return false
-			}
-		}
-		return true
-	}
-	i := strings.IndexByte(reg, ':')
-	if i < 0 {
-		if safe(reg) {
-			return 1
-		}
-		return -1
-	}
-	h, p := reg[:i], reg[i+1:]
-	if !safe(h) || h == "" || strings.ContainsRune(p, ':') {
-		return -1
-	}
-	digits := true
-	for j := 0; j < len(p); j++ {
-		if p[j] < '0' || p[j] > '9' {
-			digits = false
-		}
-	}
-	if digits {
-		return 1
-	}
-	if safe(p) {
-		return 0
-	}
-	return -1
-}
-
-// grammar returns (judged, accepted, expected reference).  Strings ending in a
-// bare ':' or '@' are not judged (documented leniency).
-func grammar(s string) (bool, bool, registry.Reference) {
-	var zero registry.Reference
-	i := strings.IndexByte(s, '/')
-	if i < 0 {
-		return true, false, zero
-	}
-	reg, path := s[:i], s[i+1:]
-	rv := registryVerdict(reg)
-	if rv < 0 {
-		return false, false, zero
-	}
-	if strings.HasSuffix(path, ":") || strings.HasSuffix(path, "@") {
-		return false, false, zero
-	}
-	if rv == 0 {
-		return true, false, zero
-	}
-	if j := strings.IndexByte(path, '@'); j >= 0 {
-		repoTag, dg := path[:j], path[j+1:]
-		repo := repoTag
-		if k := strings.IndexByte(repoTag, ':'); k >= 0 {
-			repo = repoTag[:k]
-		}
-		if okRepository(repo) && okDigest(dg) {
-			return true, true, registry.Reference{Registry: reg, Repository: repo, Reference: dg}
-		}
-		return true, false, zero
-	}
-	if j := strings.IndexByte(path, ':'); j >= 0 {
-		repo, tag := path[:j], path[j+1:]
-		if okRepository(repo) && okTag(tag) {
-			return true, true, registry.Reference{Registry: reg, Repository: repo, Reference: tag}
-		}
-		return true, false, zero
-	}
-	if okRepository(path) {
-		return true, true, registry.Reference{Registry: reg, Repository: path}
-	}
-	return true, false, zero
-}
-
-func showRef(r registry.Reference) string {
-	return fmt.Sprintf("OK %s %s %s", common.Hex(r.Registry), common.Hex(r.Repository), common.Hex(r.Reference))
-}
 
 // ---------- the cases ----------
 
-func parseCase(s string) {
-	id := run.NewID()
-	ref, err := registry.ParseReference(s)
-	obs := "ERR"
-	if err == nil {
-		obs = showRef(ref) + " FMT " + common.Hex(ref.String())
-		run.Nontrivial("P:" + s)
-		run.Count("parse_ok")
-	} else {
-		run.Count("parse_err")
-	}
-	run.Case(id, "P "+common.Hex(s), obs)
-	run.Sample(map[string]string{"op": "ParseReference", "input": s, "result": obs})
-
-	// oracle 1: grammar
-	judged, acc, want := grammar(s)
-	if judged {
-		if acc != (err == nil) {
-			run.OracleFail(id, "grammar-accept", fmt.Sprintf("ParseReference(%q): accepted=%v, grammar says %v", s, err == nil, acc),
-				map[string]string{"op": "P", "input": s})
-		} else if acc && ref != want {
-			run.OracleFail(id, "grammar-parts", fmt.Sprintf("ParseReference(%q) = %+v, grammar says %+v", s, ref, want),
-				map[string]string{"op": "P", "input": s})
+func init() {
+	urlOracle = func(id string, ref registry.Reference) {
+		// for registries net/url alone adjudicates only the query/fragment/segment-count part is
+		// judged (checkURLLoose)
+		if registryVerdict(ref.Registry) != 1 {
+			for _, kind := range []string{"manifest", "blob", "referrers"} {
+				checkURLLoose(id, kind, ref)
+			}
+			return
 		}
-	} else {
-		run.Count("parse_unjudged")
-	}
-	if err != nil {
-		return
-	}
-	// oracle 2: round trip
-	back, err2 := registry.ParseReference(ref.String())
-	if err2 != nil || back != ref {
-		run.OracleFail(id, "roundtrip", fmt.Sprintf("ParseReference(%q)=%+v; String()=%q re-parses to %+v, %v", s, ref, ref.String(), back, err2),
-			map[string]string{"op": "P", "input": s})
-	}
-	// oracle 3: URL slot, as net/url sees it (for registries net/url alone adjudicates only the
-	// query/fragment/segment-count part is judged, in checkURLLoose)
-	if ref.Reference != "" && registryVerdict(ref.Registry) != 1 {
-		for _, kind := range []string{"manifest", "blob", "referrers"} {
-			checkURLLoose(id, kind, ref)
-		}
-	}
-	if ref.Reference != "" && registryVerdict(ref.Registry) == 1 {
 		for _, kind := range []string{"manifest", "blob", "referrers"} {
 			for _, plain := range []bool{false, true} {
 				checkURL(id, kind, plain, ref)
@@ -326,31 +97,134 @@ func urlCase(kind string, plain bool, ref registry.Reference) {
 	if plain {
 		p = "1"
 	}
+	// net/url's own parse of the built URL, compared with the model's RFC 3986 splitter
+	split := "NOSPLIT"
+	if pu, err := url.Parse(u); err == nil {
+		opt := func(present bool, v string) string {
+			if !present {
+				return "none"
+			}
+			return "some:" + common.Hex(v)
+		}
+		split = fmt.Sprintf("SPLIT %s %s %s %s %s", common.Hex(pu.Scheme), common.Hex(pu.Host), common.Hex(pu.EscapedPath()),
+			opt(pu.RawQuery != "" || pu.ForceQuery, pu.RawQuery), opt(pu.Fragment != "" || strings.HasSuffix(u, "#"), pu.EscapedFragment()))
+		if pu.User != nil {
+			split += " USERINFO"
+		}
+	}
 	run.Case(id, fmt.Sprintf("U %s %s %s %s %s", kind, p, common.Hex(ref.Registry), common.Hex(ref.Repository), common.Hex(ref.Reference)),
-		"URL "+common.Hex(u))
+		"URL "+common.Hex(u)+" "+split)
 	run.Nontrivial("U:" + kind + p + ref.String())
 	run.Count("url_" + kind)
+}
+
+// baseJudged: the property's Repository clauses are judged for bases that are themselves valid
+// (a literal &Repository{Reference: ...} is not validated by the library; such bases are still
+// generated and compared with the model, but not judged by the oracle).
+func baseJudged(base registry.Reference) bool {
+	return registryVerdict(base.Registry) == 1 && okRepository(base.Repository)
+}
+
+// namesOtherRepository: ground truth for "other registries or repositories".  A reference string
+// that contains a '/' before its first '@' is a path (tags and digests never contain '/'): it names
+// the base repository only when it is <base registry>/<base repository> followed by the end, ':' or
+// '@'.  Anything else with a '/' names something that is not the base, well-formed or not.
+func namesOtherRepository(base registry.Reference, s string) bool {
+	head := s
+	if i := strings.IndexByte(s, '@'); i >= 0 {
+		head = s[:i]
+	}
+	if !strings.Contains(head, "/") {
+		return false
+	}
+	b := base.Registry + "/" + base.Repository
+	if !strings.HasPrefix(s, b) {
+		return true
+	}
+	rest := s[len(b):]
+	return !(rest == "" || rest[0] == ':' || rest[0] == '@')
+}
+
+// queryURLCases: the two builders that carry a query (oracle only, not modelled): the referrers
+// URL with an artifactType filter and the cross-repository mount URL.  As net/url sees them the
+// path must be exactly the slot and the query must decode to exactly the intended parameters.
+func queryURLCases(r *common.Rand) {
+	ats := []string{"application/vnd.example+type", "a b", "a&b=c", "x#y", "a?b", "\xc3\xa9", "%41", "a+b", "a/b;c=d", "=&", "application/vnd.oci.image.config.v1+json"}
+	for i := 0; i < run.Scale(1500, 30000); i++ {
+		ref, err := registry.ParseReference(randomValid(r))
+		if err != nil || registryVerdict(ref.Registry) != 1 {
+			continue
+		}
+		ref.Reference = randDigestValid(r)
+		if r.Bool() {
+			queryURLCase("referrers", r.Bool(), ref, common.Pick(r, ats))
+		} else if from, err := registry.ParseReference(randomValid(r)); err == nil {
+			queryURLCase("mount", r.Bool(), ref, from.Repository)
+		}
+	}
+}
+
+// queryURLCase: kind "referrers": arg = artifactType filter; kind "mount": arg = source repository
+// (a valid repository name; ref.Reference is the digest to mount).
+func queryURLCase(kind string, plain bool, ref registry.Reference, arg string) {
+	id := run.NewID()
+	run.Count("url_query_" + kind)
+	var u, wantPath string
+	want := map[string]string{}
+	if kind == "referrers" {
+		u = remote.VerifReferrersURL(plain, ref, arg)
+		wantPath = "/v2/" + ref.Repository + "/referrers/" + ref.Reference
+		want["artifactType"] = arg
+	} else {
+		u = remote.VerifMountURL(plain, ref, digest.Digest(ref.Reference), arg)
+		wantPath = "/v2/" + ref.Repository + "/blobs/uploads/"
+		want["mount"], want["from"] = ref.Reference, arg
+	}
+	rep := map[string]any{"op": "Q", "kind": kind, "plain": plain, "registry": ref.Registry, "repository": ref.Repository, "reference": ref.Reference, "input": arg}
+	pu, err := url.Parse(u)
+	if err != nil {
+		run.OracleFail(id, "url-query", fmt.Sprintf("%s URL %q of %+v does not parse: %v", kind, u, ref, err), rep)
+		return
+	}
+	q, qerr := url.ParseQuery(pu.RawQuery)
+	ok := qerr == nil && len(q) == len(want)
+	for k, v := range want {
+		ok = ok && len(q[k]) == 1 && q[k][0] == v
+	}
+	if !ok || pu.Host != ref.Host() || pu.User != nil || pu.Fragment != "" || pu.EscapedPath() != wantPath {
+		run.OracleFail(id, "url-query", fmt.Sprintf("%s URL %q of %+v (%q): host %q path %q query %v fragment %q; want path %q and exactly %v", kind, u, ref, arg, pu.Host, pu.EscapedPath(), q, pu.Fragment, wantPath, want), rep)
+	}
 }
 
 func repoCase(base registry.Reference, s string) {
 	id := run.NewID()
 	repo := &remote.Repository{Reference: base}
+	rep := map[string]string{"op": "R", "registry": base.Registry, "repository": base.Repository, "basereference": base.Reference, "input": s}
 	ref, err := repo.ParseReference(s)
-	obs := "ERR"
+	obs := errObs(id, fmt.Sprintf("Repository(%v).ParseReference", base), s, err, rep)
+	judged := baseJudged(base)
+	if !judged {
+		run.Count("repo_base_unjudged")
+	}
 	if err == nil {
 		obs = showRef(ref)
 		run.Nontrivial("R:" + base.String() + "|" + s)
 		run.Count("repo_ok")
 		if ref.Registry != base.Registry || ref.Repository != base.Repository || ref.Reference == "" {
-			run.OracleFail(id, "repo-foreign", fmt.Sprintf("Repository(%v).ParseReference(%q) = %+v leaves the base", base, s, ref),
-				map[string]string{"op": "R", "registry": base.Registry, "repository": base.Repository, "input": s})
+			run.OracleFail(id, "repo-foreign", fmt.Sprintf("Repository(%v).ParseReference(%q) = %+v leaves the base", base, s, ref), rep)
 		}
 		if !okTag(ref.Reference) && !okDigest(ref.Reference) {
-			run.OracleFail(id, "repo-invalid-reference", fmt.Sprintf("Repository(%v).ParseReference(%q) = %+v: reference neither tag nor digest", base, s, ref),
-				map[string]string{"op": "R", "registry": base.Registry, "repository": base.Repository, "input": s})
+			run.OracleFail(id, "repo-invalid-reference", fmt.Sprintf("Repository(%v).ParseReference(%q) = %+v: reference neither tag nor digest", base, s, ref), rep)
+		}
+		if judged && namesOtherRepository(base, s) {
+			run.Count("repo_other_path_accepted")
+			run.OracleFail(id, "repo-foreign-path", fmt.Sprintf("Repository(%v).ParseReference(%q) = %+v: the input names a path that is not the base repository, yet it is accepted and re-targeted to the base", base, s, ref), rep)
 		}
 	} else {
 		run.Count("repo_err")
+		if namesOtherRepository(base, s) {
+			run.Count("repo_other_path_rejected")
+		}
 	}
 	run.Case(id, fmt.Sprintf("R %s %s %s", common.Hex(base.Registry), common.Hex(base.Repository), common.Hex(s)), obs)
 }
@@ -373,7 +247,10 @@ func formsAgree(base registry.Reference, tag, dg string) {
 	// other registry / repository / empty are rejected
 	// docker.io is sent to registry-1.docker.io, but the two names are different registries
 	alias := map[string]string{"docker.io": "registry-1.docker.io", "registry-1.docker.io": "docker.io"}[base.Registry]
-	foreign := []string{"", "other.io/" + base.Repository + ":" + tag, base.Registry + "/other/" + base.Repository + ":" + tag, b}
+	foreign := []string{"", "other.io/" + base.Repository + ":" + tag, base.Registry + "/other/" + base.Repository + ":" + tag, b,
+		// malformed foreign references carrying a valid digest: still other registries / repositories
+		"ghcr.io/Org/app@" + dg, "ghcr.io/Org/app:" + tag + "@" + dg, "evil.example:bad/x@" + dg, "other.io/" + strings.ToUpper(base.Repository) + "@" + dg,
+		base.Registry + "/" + base.Repository + "x@" + dg, base.Registry + "/" + base.Repository + "/@" + dg, tag + "/" + tag + "@" + dg, "/@" + dg}
 	if alias != "" {
 		foreign = append(foreign, alias+"/"+base.Repository+":"+tag, alias+"/"+base.Repository+"@"+dg, alias+"/"+base.Repository)
 	}
@@ -386,93 +263,31 @@ func formsAgree(base registry.Reference, tag, dg string) {
 	}
 }
 
-// enumerate all strings over alphabet up to length n, digest slot 'D' expanded from the pool.
-func enumerate(alphabet []string, n int, f func(string)) {
-	var rec func(prefix string, depth int)
-	rec = func(prefix string, depth int) {
-		f(prefix)
-		if depth == n {
-			return
+// otherPath: a reference string naming a path that is NOT the base repository: well-formed foreign
+// references and malformed ones (invalid repository / registry) with and without digest
+func otherPath(r *common.Rand, base registry.Reference) string {
+	regs := []string{"ghcr.io", "other.io", "evil.example:bad", "localhost:5000", "docker.io", "registry-1.docker.io", "a", "UP.example", "h?x", "u@h", "", base.Registry, base.Registry + "x", strings.ToUpper(base.Registry)}
+	repos := []string{"Org/app", "org/app", "a", "a/b", "A", "a//b", "a/", "-a", "a_", "a..b", "library/x", base.Repository, base.Repository + "x", base.Repository + "/x", "x/" + base.Repository, strings.ToUpper(base.Repository), ""}
+	for {
+		reg, rp := common.Pick(r, regs), common.Pick(r, repos)
+		if reg == base.Registry && rp == base.Repository {
+			continue
 		}
-		for _, a := range alphabet {
-			rec(prefix+a, depth+1)
+		s := reg + "/" + rp
+		switch r.Intn(6) {
+		case 0:
+			s += ":v1"
+		case 1:
+			s += ":" + randJunk(r) + "@" + randDigest(r)
+		case 2:
+			s += ":v1@" + digestPool[r.Intn(4)]
+		case 3:
+			s += "@" + randDigest(r)
+		default:
+			s += "@" + digestPool[r.Intn(4)]
 		}
-	}
-	rec("", 0)
-}
-
-func randomValid(r *common.Rand) string {
-	comp := func() string {
-		alnum := "abcxyz0189"
-		n := 1 + r.Intn(4)
-		var sb strings.Builder
-		for i := 0; i < n; i++ {
-			if i > 0 {
-				sb.WriteString(common.Pick(r, []string{".", "_", "__", "-", "--", "---", ""}))
-			}
-			k := 1 + r.Intn(3)
-			for j := 0; j < k; j++ {
-				sb.WriteByte(alnum[r.Intn(len(alnum))])
-			}
-		}
-		return sb.String()
-	}
-	reg := common.Pick(r, []string{"localhost", "localhost:5000", "docker.io", "registry.example.com", "127.0.0.1:443", "a-b.c_d", "reg:",
-		"registry-1.docker.io", "host?x=y", "host?", "h:5000?q", "host#frag", "[::1]:5000", "ho st"})
-	nc := 1 + r.Intn(3)
-	parts := make([]string, nc)
-	for i := range parts {
-		parts[i] = comp()
-	}
-	s := reg + "/" + strings.Join(parts, "/")
-	tagc := "abzAZ09_.-"
-	tag := func() string {
-		n := 1 + r.Intn(10)
-		if r.Chance(1, 6) {
-			n = 126 + r.Intn(5)
-		}
-		var sb strings.Builder
-		sb.WriteByte("aZ0_"[r.Intn(4)])
-		for i := 1; i < n; i++ {
-			sb.WriteByte(tagc[r.Intn(len(tagc))])
-		}
-		return sb.String()
-	}
-	switch r.Intn(4) {
-	case 0:
 		return s
-	case 1:
-		return s + ":" + tag()
-	case 2:
-		return s + "@" + common.Pick(r, digestPool)
-	default:
-		return s + ":" + tag() + "@" + common.Pick(r, digestPool)
 	}
-}
-
-func mutate(r *common.Rand, s string) string {
-	bs := []byte(s)
-	special := []byte("/:@.-_ A%?#[]\\\x00\x7f\xc3\xa9+~")
-	switch r.Intn(4) {
-	case 0:
-		if len(bs) > 0 {
-			bs[r.Intn(len(bs))] = special[r.Intn(len(special))]
-		}
-	case 1:
-		i := r.Intn(len(bs) + 1)
-		bs = append(bs[:i], append([]byte{special[r.Intn(len(special))]}, bs[i:]...)...)
-	case 2:
-		if len(bs) > 0 {
-			i := r.Intn(len(bs))
-			bs = append(bs[:i], bs[i+1:]...)
-		}
-	case 3:
-		if len(bs) > 1 {
-			i, j := r.Intn(len(bs)), r.Intn(len(bs))
-			bs[i], bs[j] = bs[j], bs[i]
-		}
-	}
-	return string(bs)
 }
 
 func main() {
@@ -485,6 +300,7 @@ func main() {
 		return
 	}
 
+	availabilityCases()
 	alphabet := []string{"a", "A", "0", ".", "_", "-", "/", ":", "@", "[", "]"}
 	maxLen := run.Scale(5, 6)
 	enumerate(alphabet, maxLen, parseCase)
@@ -498,7 +314,7 @@ func main() {
 		}
 	}
 	r := run.Rand
-	nRandom := run.Scale(20000, 400000)
+	nRandom := run.Scale(20000, 1500000)
 	for i := 0; i < nRandom; i++ {
 		s := randomValid(r)
 		k := r.Intn(4)
@@ -507,10 +323,50 @@ func main() {
 		}
 		parseCase(s)
 	}
+	for i := 0; i < run.Scale(30000, 1500000); i++ {
+		constructedCase(r)
+	}
 	// tag length boundary
 	for _, n := range []int{1, 2, 127, 128, 129, 130, 200} {
 		parseCase("localhost/a:" + strings.Repeat("a", n))
 		parseCase("localhost/a:_" + strings.Repeat("-", n-1))
+	}
+
+	// Reference.String() on arbitrary triples (valid and not)
+	for i := 0; i < run.Scale(5000, 100000); i++ {
+		ref := registry.Reference{Registry: common.Pick(r, []string{"localhost:5000", "docker.io", "", "h?q"}),
+			Repository: common.Pick(r, []string{"a/b", "x", "", "Up"}),
+			Reference:  common.Pick(r, []string{"", "v1", randDigest(r), randJunk(r), common.Pick(r, digestPool)})}
+		formatCase(ref)
+	}
+
+	// components on their own: repository rule exhaustively over its own alphabet, digests
+	// with random mixed hex and algorithm names, tags around the length bound
+	repoLen := run.Scale(7, 8)
+	enumerate([]string{"a", "0", ".", "_", "-", "/"}, repoLen, func(s string) { componentCase("repo", s) })
+	run.Extra["repository_exhaustive_length"] = repoLen
+	for _, s := range []string{"A", "a b", "a:b", "a@b", "a\x00", "\xc3\xa9", "a/b/c/d/e", "a--__b", "a__--b", "a_-b", "a._b", "a-.b", "a___b", strings.Repeat("a", 300)} {
+		componentCase("repo", s)
+	}
+	for i := 0; i < run.Scale(20000, 1000000); i++ {
+		d := randDigest(r)
+		if r.Chance(1, 5) {
+			d = mutate(r, d)
+		}
+		componentCase("digest", d)
+	}
+	for _, d := range digestPool {
+		componentCase("digest", d)
+	}
+	for _, a := range otherAlgs {
+		for _, n := range []int{32, 40, 56, 64, 96, 128} {
+			componentCase("digest", hexDigest(a, n, 'a'))
+		}
+	}
+	enumerate([]string{"a", "A", "0", "_", ".", "-", ":", "/"}, run.Scale(4, 5), func(s string) { componentCase("tag", s) })
+	for _, n := range []int{127, 128, 129} {
+		componentCase("tag", strings.Repeat("a", n))
+		componentCase("tag", "_"+strings.Repeat(".", n-1))
 	}
 
 	// Repository.ParseReference
@@ -519,25 +375,45 @@ func main() {
 		{Registry: "docker.io", Repository: "library/x"},
 		{Registry: "a", Repository: "a"},
 		{Registry: "registry-1.docker.io", Repository: "library/x"},
+		{Registry: "UP.Example.COM", Repository: "a/b-c", Reference: "v9"},            // upper-case host, base Reference set
+		{Registry: "127.0.0.1:443", Repository: "a__b/c.d", Reference: digestPool[0]}, // base Reference = digest
+		// bases the library does not validate (a literal Repository{}): not judged by the oracle,
+		// compared with the model
+		{Registry: "[::1]:5000", Repository: "x"},
+		{Registry: "reg:", Repository: "x"},
+		{Registry: "localhost", Repository: "Up/x"},
+		{Registry: "h?q", Repository: "x"},
+		{Registry: "", Repository: ""},
 	}
 	for _, base := range bases {
+		if !baseJudged(base) {
+			continue
+		}
 		for _, tag := range []string{"v1", "latest", "A.b-c_d", strings.Repeat("x", 128)} {
 			for _, d := range digestPool[:4] {
 				formsAgree(base, tag, d)
 			}
+			formsAgree(base, tag, randDigestValid(r))
 		}
+	}
+	for _, base := range bases {
 		enumerate(alphabet, run.Scale(3, 4), func(s string) { repoCase(base, s) })
-		for i := 0; i < run.Scale(3000, 60000); i++ {
+		for i := 0; i < run.Scale(3000, 150000); i++ {
 			var s string
-			switch r.Intn(5) {
+			switch r.Intn(8) {
 			case 0:
 				s = randomValid(r)
 			case 1:
-				s = base.Registry + "/" + base.Repository + common.Pick(r, []string{":v1", "@" + digestPool[0], ":v1@" + digestPool[0], "", ":", "@"})
+				s = base.Registry + "/" + base.Repository + common.Pick(r, []string{":v1", "@" + digestPool[0], ":v1@" + digestPool[0], "", ":", "@",
+					":" + randJunk(r) + "@" + randDigest(r), "@" + randDigest(r), ":" + randJunk(r)})
 			case 2:
 				s = common.Pick(r, digestPool)
 			case 3:
 				s = "t" + "@" + common.Pick(r, digestPool)
+			case 4:
+				s = randJunk(r) + "@" + randDigest(r)
+			case 5, 6:
+				s = otherPath(r, base)
 			default:
 				s = common.Pick(r, []string{"v1", "a/b", "a:b", "@", ":", "a@b", "sha256:abc"})
 			}
@@ -550,22 +426,41 @@ func main() {
 
 	// reference-taking operations: requests built from the resolved reference
 	for _, base := range bases {
+		if strings.HasSuffix(base.Registry, ":") {
+			// net/http strips an empty port from the request URL (http://reg:/ is sent as
+			// http://reg/): same authority, different string; such bases are exercised by the
+			// Repository.ParseReference cases only
+			run.Count("op_base_empty_port_skipped")
+			continue
+		}
+		if !baseJudged(base) {
+			// an unvalidated literal base (outside the property's quantifier) is exercised by the
+			// Repository.ParseReference cases only: what net/http does with such a host is not modelled
+			run.Count("op_base_invalid_skipped")
+			continue
+		}
 		for _, tag := range []string{"v1", "A.b-c_d", strings.Repeat("x", 128)} {
 			for _, d := range digestPool[:4] {
 				opForms(base, tag, d)
 			}
+			opForms(base, tag, randDigestValid(r))
 		}
-		for i := 0; i < run.Scale(1500, 30000); i++ {
+		for i := 0; i < run.Scale(1500, 80000); i++ {
 			var s string
-			switch r.Intn(5) {
+			switch r.Intn(8) {
 			case 0:
 				s = randomValid(r)
 			case 1:
-				s = base.Registry + "/" + base.Repository + common.Pick(r, []string{":v1", "@" + digestPool[0], ":v1@" + digestPool[0], "", ":", "@"})
+				s = base.Registry + "/" + base.Repository + common.Pick(r, []string{":v1", "@" + digestPool[0], ":v1@" + digestPool[0], "", ":", "@",
+					":" + randJunk(r) + "@" + randDigest(r), "@" + randDigest(r), ":" + randJunk(r)})
 			case 2:
 				s = common.Pick(r, digestPool)
 			case 3:
 				s = "t" + "@" + common.Pick(r, digestPool)
+			case 4:
+				s = randJunk(r) + "@" + randDigest(r)
+			case 5, 6:
+				s = otherPath(r, base)
 			default:
 				s = common.Pick(r, []string{"v1", "a/b", "a:b", "@", ":", "a@b", "sha256:abc", "v1@", "v 1", "v1?x=1", "v1#f", "../x"})
 			}
@@ -577,25 +472,71 @@ func main() {
 	}
 
 	// URL builders on accepted references
-	for i := 0; i < run.Scale(2000, 40000); i++ {
+	for i := 0; i < run.Scale(8000, 100000); i++ {
 		ref, err := registry.ParseReference(randomValid(r))
 		if err != nil {
 			continue
 		}
-		kinds := []string{"manifest", "blob", "referrers", "taglist", "upload"}
+		kinds := []string{"manifest", "blob", "referrers", "taglist", "upload", "base", "catalog", "repobase"}
 		urlCase(common.Pick(r, kinds), r.Bool(), ref)
+	}
+	queryURLCases(r)
+	coverageFloors()
+}
+
+// coverageFloors: a run in which one of the input classes silently produced (almost) nothing is a
+// broken run (layer R), not a pass.  The floors are far below what every seed produces.
+func coverageFloors() {
+	floors := map[string]int{
+		"constructed": 20000, "constructed_accept": 5000, "parse_ok": 2000, "parse_judged_accept": 1500, "parse_judged_reject": 50000, "repo_ok": 2000, "repo_err": 5000,
+		"repo_other_path_rejected": 3000, "component_repo_ok": 5000, "component_digest_ok": 3000, "component_tag_ok": 500,
+		"op_mresolve": 500, "op_mfetchref": 500, "op_tag": 500, "op_pushref": 500, "op_bresolve": 500, "op_bfetchref": 500,
+		"op_sent": 3000, "op_refused": 3000, "op_ground_truth": 500,
+		"url_manifest": 100, "url_blob": 100, "url_referrers": 100, "url_taglist": 100, "url_upload": 100, "url_base": 100, "url_catalog": 100, "url_repobase": 100,
+		"url_query_referrers": 100, "url_query_mount": 100,
+	}
+	for v := 0; v < 8; v++ {
+		floors[fmt.Sprintf("op_variant_%d", v)] = 500
+	}
+	var low []string
+	for k, n := range floors {
+		if run.Dist[k] < n {
+			low = append(low, fmt.Sprintf("%s=%d<%d", k, run.Dist[k], n))
+		}
+	}
+	if len(low) > 0 {
+		sort.Strings(low)
+		fmt.Fprintln(os.Stderr, "coverage floor not reached:", strings.Join(low, " "))
+		run.Finish()
+		os.Exit(3)
 	}
 }
 
 func replay(path string) {
+	availabilityCases()
 	for _, c := range common.ReadReplay(path) {
 		switch c["op"] {
 		case "P":
 			parseCase(c["input"])
 		case "R":
-			repoCase(registry.Reference{Registry: c["registry"], Repository: c["repository"]}, c["input"])
+			repoCase(registry.Reference{Registry: c["registry"], Repository: c["repository"], Reference: c["basereference"]}, c["input"])
+		case "V":
+			componentCase(c["kind"], c["input"])
+		case "F":
+			formatCase(registry.Reference{Registry: c["registry"], Repository: c["repository"], Reference: c["reference"]})
+		case "Q":
+			queryURLCase(c["kind"], c["plain"] == "true", registry.Reference{Registry: c["registry"], Repository: c["repository"], Reference: c["reference"]}, c["input"])
 		case "O":
-			opCase(registry.Reference{Registry: c["registry"], Repository: c["repository"]}, c["kind"], c["plain"] == "true", c["input"], c["want"])
+			// a replay without a variant (made from a model/implementation mismatch) runs all of them
+			lo, hi := 0, 7
+			if v, err := strconv.Atoi(c["variant"]); err == nil {
+				lo, hi = v, v
+			}
+			for v := lo; v <= hi; v++ {
+				forcedVariant = v
+				opCase(registry.Reference{Registry: c["registry"], Repository: c["repository"]}, c["kind"], c["plain"] == "true", c["input"], c["want"])
+			}
+			forcedVariant = -1
 		case "U":
 			ref := registry.Reference{Registry: c["registry"], Repository: c["repository"], Reference: c["reference"]}
 			checkURL(run.NewID(), c["kind"], c["plain"] == "true", ref)
